@@ -4594,4 +4594,127 @@ theorem sqr_ge_neg (t : ℤ) : sqr t ≥ -t := by
 theorem sqr_facts (t : ℤ) : sqr t ≥ 0 ∧ (sqr t = 0 ↔ t = 0) ∧ sqr t ≥ t ∧ sqr t ≥ -t :=
   ⟨sqr_nonneg t, sqr_eq_zero_iff t, sqr_ge_self t, sqr_ge_neg t⟩
 
+
+/-! # Twenty-third batch: sorted subsets of a progression, `pairlits` -/
+
+/-- (a) `And(k >= 0, 0 <= i, i < clen(C), 0 <= p, p < q, q < ilen(cget(C, i))) ->
+    And(s <= iget(cget(C, i), p), iget(cget(C, i), p) < iget(cget(C, i), q), iget(cget(C, i), q) < s + n)`,
+    `C = combs(apseq(s, n), k)` (the guard `k >= 0` is not needed) -/
+theorem combs_apseq_sorted (s n k i p q : ℤ) :
+    (k ≥ 0 ∧ 0 ≤ i ∧ i < clen (combs (apseq s n) k) ∧ 0 ≤ p ∧ p < q ∧
+      q < ilen (cget (combs (apseq s n) k) i)) →
+    (s ≤ iget (cget (combs (apseq s n) k) i) p ∧
+     iget (cget (combs (apseq s n) k) i) p < iget (cget (combs (apseq s n) k) i) q ∧
+     iget (cget (combs (apseq s n) k) i) q < s + n) := by
+  rintro ⟨_, hi0, hi1, hp0, hpq, hq⟩
+  have hm : cget (combs (apseq s n) k) i ∈ combsLex k.toNat (apseq s n) :=
+    cget_mem (combs (apseq s n) k) i ⟨hi0, hi1⟩
+  rw [mem_combsLex] at hm
+  generalize cget (combs (apseq s n) k) i = F at hm hq ⊢
+  have hpw : F.Pairwise (· < ·) := (apseq_pairwise_lt s n).sublist hm.1
+  unfold ilen at hq
+  have hpl : p.toNat < F.length := by omega
+  have hql : q.toNat < F.length := by omega
+  have e1 : iget F p = F[p.toNat] := by
+    unfold iget; rw [List.getD_eq_getElem?_getD, List.getElem?_eq_getElem hpl]; rfl
+  have e2 : iget F q = F[q.toNat] := by
+    unfold iget; rw [List.getD_eq_getElem?_getD, List.getElem?_eq_getElem hql]; rfl
+  rw [e1, e2]
+  have hlt := (List.pairwise_iff_getElem.mp hpw) p.toNat q.toNat hpl hql (by omega)
+  obtain ⟨j1, ⟨hj1, _⟩, h1⟩ := (mem_apseq s n _).mp (hm.1.subset (List.getElem_mem hpl))
+  obtain ⟨j2, ⟨_, hj2⟩, h2⟩ := (mem_apseq s n _).mp (hm.1.subset (List.getElem_mem hql))
+  omega
+
+theorem combsLex_map {α β : Type} (f : α → β) (k : ℕ) (l : List α) :
+    combsLex k (l.map f) = (combsLex k l).map (List.map f) := by
+  induction l generalizing k with
+  | nil => cases k <;> simp [combsLex]
+  | cons a l ih =>
+    cases k with
+    | zero => simp [combsLex]
+    | succ k => simp [combsLex, ih, List.map_map, Function.comp_def]
+
+theorem length_combsLex_two {α : Type} (l : List α) :
+    (2 : ℤ) * ((combsLex 2 l).length : ℤ) = (l.length : ℤ) * ((l.length : ℤ) - 1) := by
+  induction l with
+  | nil => simp [combsLex]
+  | cons a l ih =>
+    have h : combsLex 2 (a :: l) = (combsLex 1 l).map (fun r => a :: r) ++ combsLex 2 l := rfl
+    rw [h, combsLex_one, List.length_append, List.length_map, List.length_map, List.length_cons]
+    push_cast
+    linear_combination ih
+
+section PairLits
+
+-- variable of the pair u < v in combinations group g: an ARBITRARY function
+variable (cvar : ℤ → ℤ → ℤ → ℤ)
+
+/-- `[cvar(g, S[p], S[q]) for p < q]` in `itertools.combinations(S, 2)` order -/
+def pairlits (g : ℤ) (S : ISeq) : ISeq :=
+  (combsLex 2 S).map (fun pr => cvar g (pr.getD 0 0) (pr.getD 1 0))
+
+/-- the position pairs `[p, q]`, `p < q < n`, in `itertools.combinations(range(n), 2)` order -/
+def pospairs (n : ℕ) : List (List ℕ) := combsLex 2 (List.range n)
+/-- first / second position of the `t`-th pair of `itertools.combinations(S, 2)` (depend on `len S` and `t` only) -/
+def pl1 (S : ISeq) (t : ℤ) : ℤ := ((((pospairs S.length).getD t.toNat []).getD 0 0 : ℕ) : ℤ)
+def pl2 (S : ISeq) (t : ℤ) : ℤ := ((((pospairs S.length).getD t.toNat []).getD 1 0 : ℕ) : ℤ)
+
+/-- (b) `2 * ilen(pairlits(g, S)) == ilen(S) * (ilen(S) - 1)` -/
+theorem ilen_pairlits (g : ℤ) (S : ISeq) : 2 * ilen (pairlits cvar g S) = ilen S * (ilen S - 1) := by
+  unfold ilen pairlits
+  rw [List.length_map]
+  exact length_combsLex_two S
+
+theorem pospairs_mem (n : ℕ) (pr : List ℕ) (h : pr ∈ pospairs n) :
+    ∃ p q : ℕ, pr = [p, q] ∧ p < q ∧ q < n := by
+  unfold pospairs at h
+  rw [mem_combsLex] at h
+  obtain ⟨hsub, hlen⟩ := h
+  match pr, hlen with
+  | [p, q], _ =>
+    have hpw : [p, q].Pairwise (· < ·) := (List.pairwise_lt_range).sublist hsub
+    have hq : q ∈ List.range n := hsub.subset (by simp)
+    simp only [List.pairwise_cons, List.mem_singleton, forall_eq] at hpw
+    exact ⟨p, q, rfl, hpw.1, List.mem_range.mp hq⟩
+
+theorem pairlits_eq (g : ℤ) (S : ISeq) :
+    pairlits cvar g S =
+      (pospairs S.length).map (fun pr => cvar g (S.getD (pr.getD 0 0) 0) (S.getD (pr.getD 1 0) 0)) := by
+  have hS : S = (List.range S.length).map (fun i => S.getD i 0) := by
+    apply List.ext_getElem
+    · simp
+    · intro i h1 h2
+      simp only [List.getElem_map, List.getElem_range]
+      rw [List.getD_eq_getElem?_getD, List.getElem?_eq_getElem h1]; rfl
+  unfold pairlits pospairs
+  conv_lhs => rw [hS, combsLex_map, List.map_map]
+  apply List.map_congr_left
+  intro pr hpr
+  obtain ⟨p, q, rfl, _, _⟩ := pospairs_mem S.length pr hpr
+  simp
+
+/-- (c') `And(0 <= t, t < ilen(pairlits(g, S))) -> And(0 <= pl1(S, t), pl1(S, t) < pl2(S, t), pl2(S, t) < ilen(S),
+    iget(pairlits(g, S), t) == cvar(g, iget(S, pl1(S, t)), iget(S, pl2(S, t))))` -/
+theorem iget_pairlits (g : ℤ) (S : ISeq) (t : ℤ) : (0 ≤ t ∧ t < ilen (pairlits cvar g S)) →
+    (0 ≤ pl1 S t ∧ pl1 S t < pl2 S t ∧ pl2 S t < ilen S ∧
+     iget (pairlits cvar g S) t = cvar g (iget S (pl1 S t)) (iget S (pl2 S t))) := by
+  rintro ⟨h0, h1⟩
+  rw [pairlits_eq] at h1 ⊢
+  unfold ilen at h1
+  rw [List.length_map] at h1
+  have hlt : t.toNat < (pospairs S.length).length := by omega
+  have hmem : (pospairs S.length)[t.toNat] ∈ pospairs S.length := List.getElem_mem hlt
+  obtain ⟨p, q, hpq, hlt1, hlt2⟩ := pospairs_mem _ _ hmem
+  have hget : (pospairs S.length).getD t.toNat [] = [p, q] := by
+    rw [List.getD_eq_getElem?_getD, List.getElem?_eq_getElem hlt]; exact hpq
+  have e1 : pl1 S t = (p : ℤ) := by unfold pl1; rw [hget]; rfl
+  have e2 : pl2 S t = (q : ℤ) := by unfold pl2; rw [hget]; rfl
+  rw [e1, e2]
+  refine ⟨by omega, by omega, by unfold ilen; omega, ?_⟩
+  unfold iget
+  rw [List.getD_eq_getElem?_getD, List.getElem?_map, List.getElem?_eq_getElem hlt, hpq]
+  simp
+
+end PairLits
+
 end CnfSem
